@@ -432,7 +432,7 @@ func mustPassEdgeStart(start, target *ssa.BasicBlock, okCond func(cond ssa.Value
 				if val {
 					idx = 0
 				}
-				if !okCond(cond, val) {
+				if !okCondN(okCond, cond, val) {
 					work = append(work, node{n.b.Succs[idx], n.b})
 				}
 				continue
@@ -447,7 +447,7 @@ func mustPassEdgeStart(start, target *ssa.BasicBlock, okCond func(cond ssa.Value
 				work = append(work, node{s, n.b})
 				continue
 			}
-			if okCond(cond, truth) {
+			if okCondN(okCond, cond, truth) {
 				continue
 			}
 			work = append(work, node{s, n.b})
@@ -545,4 +545,23 @@ func copyKnown(m map[ssa.Value]bool) map[ssa.Value]bool {
 		n[k] = v
 	}
 	return n
+}
+
+// okCondN asks okCond about a branch outcome and about its complementary
+// reading (x != y false is x == y true), so that guard clauses written either
+// way are recognised.
+func okCondN(okCond func(cond ssa.Value, truth bool) bool, cond ssa.Value, truth bool) bool {
+	if okCond(cond, truth) {
+		return true
+	}
+	// through negation
+	if u, ok := cond.(*ssa.UnOp); ok && u.Op == token.NOT {
+		return okCondN(okCond, u.X, !truth)
+	}
+	if bo, ok := cond.(*ssa.BinOp); ok && bo.Block() != nil {
+		if cop, ok := complementOp[bo.Op]; ok {
+			return okCond(complementOf(bo, cop), !truth)
+		}
+	}
+	return false
 }
